@@ -61,8 +61,10 @@ theorem no_work_exits (hp : s.pc = .afterPoll true) (ht : s.tasksEmpty = true) (
     ∃ s', step s (.decide e w c) = .ok s' [] ∧ s'.pc = .dropCancelWake := by
   simp [step, hp, ht, hw]
 
-/-- **wait_on_own_set.**  Every WAIT names the waitable set this task created itself (never 0) and
-something is pending in it: a registered waitable, or the wake-up read of the inter-task stream. -/
+/-- **wait_on_own_set.**  Every WAIT names the waitable set this task created itself (never 0), and the
+runtime has something outstanding: a key in its waitables map, or the pending wake-up read of the inter-task
+stream.  (This is the runtime's own bookkeeping; that the HOST's set then really has such a member is
+`wait_set_has_member` below, which needs `set_in_sync`.) -/
 theorem wait_on_own_set (hr : Reach d itw s) (hs : step s l = .ok s' evs) {x : Nat} (ha : Answers s s' (.wait x)) :
     s'.set = some x ∧ x ≠ 0 ∧ (s'.waitables ≠ [] ∨ s'.wk.reading = true) := by
   have hi := reach_inv hr
@@ -76,6 +78,31 @@ theorem wait_on_own_set (hr : Reach d itw s) (hs : step s l = .ok s' evs) {x : N
   refine ⟨hset.1, ?_, hset.2⟩
   intro h0
   exact hi'.setNZ (by rw [hset.1, h0])
+
+/-- **wait_on_own_set (the host's view).**  `members` records what this executor joined to its set
+(`waitable.join(w, set)`) and did not take out again (`waitable.join(w, 0)`): as long as nobody registers the
+runtime's internal stream handle through the C ABI (`Legal`), it is exactly the keys of the waitables map
+plus the wake-up stream's reader while its read is pending. -/
+theorem set_in_sync (hr : ReachL d itw s) :
+    (∀ x, x ∈ s.members ↔ (x ∈ s.waitables ∨ pendingReader s x)) ∧
+    (∀ r w, s.wk.stream = some (r, w) → r ∉ s.waitables) :=
+  ⟨(reachL_invM hr).sync, (reachL_invM hr).fresh⟩
+
+/-- … hence every WAIT names a set that — in the host's view — has a member whose event is outstanding. -/
+theorem wait_set_has_member (hr : ReachL d itw s) (hl : Legal s l) (hs : step s l = .ok s' evs) {x : Nat}
+    (ha : Answers s s' (.wait x)) : s'.set = some x ∧ ∃ m, m ∈ s'.members := by
+  have hw := wait_on_own_set hr.reach hs ha
+  have hm := reachL_invM (ReachL.step hr hl hs)
+  have hi' := inv_step (reach_inv hr.reach) hs
+  refine ⟨hw.1, ?_⟩
+  rcases hw.2.2 with h | h
+  · cases hwl : s'.waitables with
+    | nil => exact absurd hwl h
+    | cons a t => exact ⟨a, (hm.sync a).2 (Or.inl (by simp [hwl]))⟩
+  · have hst := (hi'.readItw h).2.1
+    cases hstream : s'.wk.stream with
+    | none => simp [hstream] at hst
+    | some p => exact ⟨p.1, (hm.sync p.1).2 (Or.inr ⟨h, p.2, by simp [hstream]⟩)⟩
 
 /-- **yield_only_if_woken_during_poll.**  A YIELD is answered only if `wake_by_ref` ran after the sleep
 state was last reset to POLLING, i.e. during this poll of the tasks — and the tasks were polled and are
@@ -134,6 +161,79 @@ theorem tasks_ready_iff_empty {sys sys' : Exec.Sys} {t : Nat} {empty : Bool}
     (h : Exec.tasksPollNext sys t = (sys', true, empty)) :
     Exec.NoFutures sys' t ∧ (sys.build.spawn = true → sys'.spawned = []) :=
   Exec.tasksPollNext_ready h
+
+/-- **legal_steps_never_panic (partial).**  From every state reachable by legal labels, every step that
+is enabled — right program point; host and user code keep their contracts, see `Enabled` in
+`Proofs/Task.lean` — succeeds: none of the executor's `unwrap()`s, `assert!`s and `unreachable!()`s
+(`waitables.remove(&w).unwrap()`, `waitable_set…unwrap()`, `assert!(me.tasks.is_empty())`,
+`NonZeroU32::new(..).unwrap()`, `assert_eq!(rc, BLOCKED)`, …) can fire.
+PARTIAL: `Enabled` excludes exactly the two situations in which the current code does panic on a legal
+schedule — `block_on` resuming while no waitable set exists (`block_on_yield_full_false` below) and a wake
+of a task left in state SLEEPING by a cancellation (`Props.C23.wake_after_exit_full_false`) — and the two
+documented panics of builds without the inter-task-wakeup feature. -/
+theorem legal_steps_never_panic_partial (hr : ReachL d itw s) (he : Enabled s l) : ∃ s' evs, step s l = .ok s' evs := by
+  cases h : step s l with
+  | ok s' evs => exact ⟨s', evs, rfl⟩
+  | panic m e => exact absurd h (fun h => never_panic (reach_inv hr.reach) (reachL_invM hr) he h)
+
+/-- the preconditions of `Enabled` that speak about the past are established by the preceding legal label:
+an event for a member of the set is what `deliver` gets; `poll_next`'s consistent answer is what `decide` sees -/
+theorem enabled_history :
+    (∀ e w c, step s (.call e w c) = .ok s' evs → (s.driver = .start ∨ s.last.isSome = true) →
+      e ≠ Limits.eventNone → e ≠ Limits.eventCancel → w ∈ s.members →
+      ∃ n, s'.pc = .deliver w c n ∧ w ∈ s'.members) ∧
+    (∀ r, step s (.pollDone r r) = .ok s' evs → s'.pc = .afterPoll s'.tasksEmpty) := by
+  constructor
+  · intro e w c hs hd h0 h6 hm
+    step_split hs
+    all_goals (obtain ⟨hq, _⟩ := hs; subst hq)
+    all_goals (rcases hd with hd | hd <;> simp_all)
+  · intro r hs
+    step_split hs
+    all_goals (obtain ⟨hq, _⟩ := hs; subst hq)
+    all_goals simp_all
+
+/-- **task_dropped_once (progress).**  Once a callback has decided EXIT the executor's own steps — cancel
+the wake-up read, run the destructors of the remaining futures, drop the fields — are all enabled and lead
+to `gone` with the destructor having run exactly once (the destructors themselves are user code: their
+wakes / unregistrations are further enabled labels in between). -/
+theorem exit_reaches_gone (hr : ReachL d itw s) (hp : s.pc = .dropCancelWake) (ans : Nat) :
+    ∃ sG, (run s [.cancelRead ans, .dropTasksDone, .tau] = some sG ∨ run s [.cancelRead ans, .tau] = some sG) ∧
+      sG.pc = .gone ∧ sG.drops = 1 ∧ sG.last = some .exit := by
+  obtain ⟨s1, e1, h1⟩ := legal_steps_never_panic_partial hr (l := .cancelRead ans) (Or.inr hp)
+  have hr1 : ReachL d itw s1 := ReachL.step (l := .cancelRead ans) hr trivial h1
+  have hpc : s1.pc = .dropTasks ∨ s1.pc = .dropFields := by
+    have h1' := h1
+    step_split h1'
+    all_goals (obtain ⟨hq, _⟩ := h1'; subst hq)
+    all_goals simp_all
+  have fin : ∀ s2, ReachL d itw s2 → s2.pc = .dropFields →
+      ∃ sG, run s2 [.tau] = some sG ∧ sG.pc = .gone ∧ sG.drops = 1 ∧ sG.last = some .exit := by
+    intro s2 hr2 hp2
+    obtain ⟨s3, e3, h3⟩ := legal_steps_never_panic_partial hr2 (l := .tau) (Or.inr (Or.inr hp2))
+    have hi3 := reach_inv (ReachL.step (l := .tau) hr2 trivial h3).reach
+    have hg : s3.pc = .gone := by
+      have h3' := h3
+      step_split h3'
+      all_goals (obtain ⟨hq, _⟩ := h3'; subst hq)
+      all_goals simp_all
+    refine ⟨s3, by simp [run, h3], hg, ?_, hi3.lastGone hg⟩
+    rw [hi3.drops]; simp [hg, dropped, b2n]
+  rcases hpc with hp1 | hp1
+  · obtain ⟨s2, e2, h2⟩ := legal_steps_never_panic_partial hr1 (l := .dropTasksDone) hp1
+    have hp2 : s2.pc = .dropFields := by
+      have h2' := h2
+      step_split h2'
+      all_goals (obtain ⟨hq, _⟩ := h2'; subst hq)
+      all_goals simp_all
+    obtain ⟨sG, hrun, hg⟩ := fin s2 (ReachL.step (l := .dropTasksDone) hr1 trivial h2) hp2
+    refine ⟨sG, Or.inl ?_, hg⟩
+    simp only [run, h1, h2] at hrun ⊢
+    exact hrun
+  · obtain ⟨sG, hrun, hg⟩ := fin s1 hr1 hp1
+    refine ⟨sG, Or.inr ?_, hg⟩
+    simp only [run, h1] at hrun ⊢
+    exact hrun
 
 /-- **task_dropped_once.**  The destructor of the task state runs at most once, has run exactly once when
 the task is gone, and nothing is ever run for a task that is gone (no later callback, poll or drop):
